@@ -36,6 +36,9 @@ class Ctx:
         self.fresh = 0
         self.yield_arity = 0
         self.loopvars = {}   # name -> T  (variables of the enclosing for loops: plain Gallina binders inside the body)
+        self.reads = {}      # ast.dump(expression) -> T   (declared meaning of an expression the fragment does not read itself)
+        self.calls = {}      # function name -> Gallina function on ints
+        self.stores = {}     # ast.dump(assignment target) -> (state field, type)
 
     def gensym(self):
         self.fresh += 1
@@ -157,6 +160,18 @@ ORDER = {ast.Lt: "Z.ltb", ast.LtE: "Z.leb", ast.Gt: "Z.gtb", ast.GtE: "Z.geb"}
 
 
 def expr(ctx, e):
+    if ctx.reads and ast.dump(e) in ctx.reads:
+        return ctx.reads[ast.dump(e)]
+    if (isinstance(e, ast.Call) and isinstance(e.func, ast.Name) and e.func.id in ctx.calls and len(e.args) == 1 and not e.keywords):
+        a = to_z(ctx, expr(ctx, e.args[0]))
+        return bind_all(ctx, [a], lambda n: T("(%s %s)" % (ctx.calls[e.func.id], n[0]), "Z"))
+    if isinstance(e, ast.BoolOp) and isinstance(e.op, ast.Or) and len(e.values) == 2:
+        a, b = expr(ctx, e.values[0]), expr(ctx, e.values[1])
+        if a.ty in ("optZ", "Z") and b.ty == "Z":
+            # x or y in value position: x when it is truthy (not None, not 0), else y
+            if a.ty == "optZ":
+                return bind_all(ctx, [a, b], lambda n: T("(match %s with Some n__ => if n__ =? 0 then %s else n__ | None => %s end)" % (n[0], n[1], n[1]), "Z"))
+            return bind_all(ctx, [a, b], lambda n: T("(if %s =? 0 then %s else %s)" % (n[0], n[1], n[0]), "Z"))
     if isinstance(e, ast.Constant):
         v = e.value
         if v is None:
@@ -296,7 +311,10 @@ def assign(ctx, target, value_t):
     """state update s -> res st for target := value"""
     if isinstance(target, ast.Name) and target.id in ctx.loopvars:
         raise Decline("assignment to a loop variable")
-    if isinstance(target, ast.Name) and target.id in ctx.state:
+    if ctx.stores and ast.dump(target) in ctx.stores:
+        fld, ty = ctx.stores[ast.dump(target)]
+        v = coerce(ctx, value_t, ty)
+    elif isinstance(target, ast.Name) and target.id in ctx.state:
         v = coerce(ctx, value_t, ctx.state[target.id])
         fld = "v_" + target.id
     elif isinstance(target, ast.Attribute) and isinstance(target.value, ast.Name) and target.value.id in ctx.objects:
@@ -727,6 +745,92 @@ def translate_mapping_to_items(tree):
 
 
 # ---------------------------------------------------------------------------------------------------------
+# _blocks.blocks_to_bytes: the per-instruction bodies of the two passes of the jump relaxation
+
+def _load(text):
+    return ast.dump(ast.parse(text, mode="eval").body)
+
+
+def _store(text):
+    return ast.dump(ast.parse(text + " = 0").body[0].targets[0])
+
+
+def translate_relax_step(tree):
+    f = find_def(tree.body, "blocks_to_bytes")
+    wh = [s for s in f.body if isinstance(s, ast.While)]
+    if len(wh) != 1 or not (isinstance(wh[0].test, ast.Name) and wh[0].test.id == "changed_instruction_lengths"):
+        raise Decline("the relaxation loop")
+    body = [s for s in wh[0].body if not (isinstance(s, ast.Expr) and isinstance(s.value, ast.Constant))]
+    # current_instruction_offset = 0 ; for ...: (pass 1) ; changed = False ; current_instruction_offset = 0 ; for ...: (pass 2)
+    shape = [type(s).__name__ for s in body]
+    if shape != ["Assign", "For", "Assign", "Assign", "For"]:
+        raise Decline("statements of the relaxation loop: " + ",".join(shape))
+    for st, want in ((body[0], "current_instruction_offset = 0"), (body[2], "changed_instruction_lengths = False"), (body[3], "current_instruction_offset = 0")):
+        if ast.dump(st) != ast.dump(ast.parse(want).body[0]):
+            raise Decline("reset statement: " + want)
+
+    def inner(loop):
+        if not (ast.dump(loop.target) == ast.dump(ast.parse("for block_index, block in x: pass").body[0].target)
+                and ast.dump(loop.iter) == _load("enumerate(blocks)")):
+            raise Decline("outer loop header")
+        fors = [s for s in loop.body if isinstance(s, ast.For)]
+        if len(fors) != 1 or loop.body[-1] is not fors[0]:
+            raise Decline("inner loop position")
+        il = fors[0]
+        if not (ast.dump(il.target) == ast.dump(ast.parse("for instruction_index, instruction in x: pass").body[0].target)
+                and ast.dump(il.iter) == _load("enumerate(block)")):
+            raise Decline("inner loop header")
+        return loop.body[:-1], il.body
+
+    def ctx_for(state):
+        params = {"nargs": "optZ", "v": "Z", "v310": "bool", "is_jump": "bool", "target_offset": "optZ", "relative": "bool"}
+        ctx = Ctx(state, params, {}, RECORDS, {})
+        ctx.reads = {
+            _load("args[block_index, instruction_index]"): T("v", "Z"),
+            _load("instruction._n_args_override"): T("nargs", "optZ"),
+            _load("isinstance(arg, Jump)"): T("is_jump", "bool"),
+            _load("arg.relative"): T("relative", "bool"),
+            _load("_ATLEAST_310"): T("v310", "bool"),
+            # block_index_to_instruction_offset[arg.target]: a dict lookup, KeyError when the block does not exist
+            _load("block_index_to_instruction_offset[arg.target]"): T("(match target_offset with Some x => OK x | None => Err KeyError end)", "Z", False),
+        }
+        ctx.calls = {"_instrsize": "PCD.Gen.Src.instrsize"}
+        return ctx
+
+    # pass 1: block offsets
+    pre1, body1 = inner(body[1])
+    if not (len(pre1) == 1 and ast.dump(pre1[0]) == ast.dump(ast.parse("block_index_to_instruction_offset[block_index] = current_instruction_offset").body[0])):
+        raise Decline("block offset assignment")
+    st1 = {"current_instruction_offset": "Z", "arg_value": "Z", "n_instructions": "Z"}
+    c1 = ctx_for(st1)
+    for n in ast.walk(ast.Module(body=body1, type_ignores=[])):
+        if isinstance(n, ast.Name) and isinstance(n.ctx, ast.Store) and n.id not in st1:
+            raise Decline("local of pass 1: " + n.id)
+    t1 = stmts(c1, body1)
+    # pass 2: jump operands and the changed flag
+    pre2, body2 = inner(body[4])
+    if pre2:
+        raise Decline("statements before the inner loop of pass 2")
+    st2 = {"current_instruction_offset": "Z", "arg_value": "Z", "n_instructions": "Z", "changed_instruction_lengths": "bool",
+           "target_instruction_offset": "Z", "multiplier": "Z", "new_arg_value": "Z", "out_arg": "optZ"}
+    c2 = ctx_for(st2)
+    c2.stores = {_store("args[block_index, instruction_index]"): ("v_out_arg", "optZ")}
+    b2 = [s for s in body2 if not (isinstance(s, ast.Assign) and ast.dump(s) == ast.dump(ast.parse("arg = instruction.arg").body[0]))]
+    if len(b2) != len(body2) - 1:
+        raise Decline("arg = instruction.arg")
+    for n in ast.walk(ast.Module(body=b2, type_ignores=[])):
+        if isinstance(n, ast.Name) and isinstance(n.ctx, ast.Store) and n.id not in st2:
+            raise Decline("local of pass 2: " + n.id)
+    t2 = stmts(c2, b2)
+    sig = "(nargs : option Z) (v : Z) (v310 is_jump : bool) (target_offset : option Z) (relative : bool)"
+    out = ["Module RelaxPass1.", record_decl([("v_" + a, COQ_TY[t], DEFAULT[t]) for a, t in st1.items()]),
+           "Definition step %s (s : st) : res st :=\n  %s." % (sig, t1), "End RelaxPass1.",
+           "Module RelaxPass2.", record_decl([("v_" + a, COQ_TY[t], DEFAULT[t]) for a, t in st2.items()]),
+           "Definition step %s (s : st) : res st :=\n  %s." % (sig, t2), "End RelaxPass2."]
+    return "\n".join(out) + "\n"
+
+
+# ---------------------------------------------------------------------------------------------------------
 # _blocks._parse_bytes: a generator over range(0, len(b), 2) with two accumulators
 
 def translate_parse_bytes(tree):
@@ -785,7 +889,8 @@ def translate_parse_bytes(tree):
 ITEMS = [("expand_items", "_line_mapping.py", translate_expand_items),
          ("collapse_items", "_line_mapping.py", translate_collapse_items),
          ("parse_bytes", "_blocks.py", translate_parse_bytes),
-         ("mapping_to_items", "_line_mapping.py", translate_mapping_to_items)]
+         ("mapping_to_items", "_line_mapping.py", translate_mapping_to_items),
+         ("relax_step", "_blocks.py", translate_relax_step)]
 
 HEADER = ("(* generated by harness/translate_lines.py from /repo/code_data/_line_mapping.py on every run; do not edit *)\n"
           "From PCD Require Import Base.PyBase Base.PyImp Model.LineTable.\nFrom PCD Require Gen.Src.\n\n")
